@@ -24,6 +24,9 @@
 //!   poll <i>                    one poll of stream i                                     -> `batch v0+rows|wait|io|end|error <kind>|done`
 //!   next <i>                    poll until not `io`
 //!   drain <i>                   `next` until not a batch                                 -> `v0+rows … <last>`
+//!   conc <limit> <k> <delays>  black box: a writer task (k batches `j*100+0..4`, then finish) and one reader task per
+//!                               delay (started after that many yields) run on a multi-threaded runtime
+//!                                                                                        -> `r<i>=<batches>;…` (each must be all k batches)
 //!   chunk|concat|break|strict <n> <lens>                                                 -> pieces `v0+len`, `,` within / `|` between chunks
 //! The batch of a write is rows `off..off+rows` of the Int32 array number (base, blen) with values `base*100+j`;
 //! `file=` is the number of record batches an independent reader finds in the spill file (`!`: end marker present).
@@ -96,6 +99,7 @@ enum Item {
 
 struct C41 {
     rt: tokio::runtime::Runtime,
+    rt_mt: tokio::runtime::Runtime,
     dir: tempfile::TempDir,
     counter: u64,
     flag: Arc<Flag>,
@@ -151,8 +155,10 @@ fn classify(e: &DataFusionError) -> String {
 impl C41 {
     fn new() -> Self {
         let rt = tokio::runtime::Builder::new_current_thread().enable_all().max_blocking_threads(1).build().unwrap();
+        let rt_mt = tokio::runtime::Builder::new_multi_thread().worker_threads(3).enable_all().build().unwrap();
         Self {
             rt,
+            rt_mt,
             dir: tempfile::tempdir().unwrap(),
             counter: 0,
             flag: Arc::new(Flag(AtomicBool::new(false))),
@@ -466,15 +472,32 @@ impl Prop for C41 {
     }
     fn budget(&self, tier: Tier) -> usize {
         match tier {
-            Tier::Quick => 1500,
-            Tier::Thorough => 40_000,
-            Tier::Search => 12_000,
+            Tier::Quick => 8000,
+            Tier::Thorough => 200_000,
+            Tier::Search => 60_000,
         }
     }
 
     fn gen_case(&mut self, rng: &mut Rng, _tier: Tier, idx: usize) -> Vec<String> {
         if idx % 4 == 3 {
             return gen_chunk_case(rng);
+        }
+        if idx % 16 == 5 {
+            let mut out = vec![];
+            for _ in 0..rng.range(1, 3) {
+                let k = rng.range(0, 12);
+                let limit = match rng.below(3) {
+                    0 => 0,
+                    1 => rng.range(1, (k * 16).max(2)),
+                    _ => 1_000_000,
+                };
+                let mut d = vec![];
+                for _ in 0..rng.range(1, 5) {
+                    d.push(*rng.pick(&[0u64, 0, 1, 2, 5, 10, 30, 100]));
+                }
+                out.push(format!("conc {limit} {k} {}", show_nat_list(d)));
+            }
+            return out;
         }
         if rng.chance(1, 10) {
             return gen_malformed(rng);
@@ -625,6 +648,14 @@ impl Prop for C41 {
                     }
                     _ => "bad-op".into(),
                 },
+                ["conc", limit, k, delays] => match (limit.parse::<usize>(), k.parse::<u64>(), parse_nat_list(delays)) {
+                    (Ok(limit), Ok(k), Some(delays)) if k <= 64 && delays.len() <= 16 && delays.iter().all(|d| *d <= 1000) => {
+                        res.tags.push("op:conc".into());
+                        res.nontrivial |= k > 0 && !delays.is_empty();
+                        self.exec_conc(limit, k, &delays, &mut fails, ln)
+                    }
+                    _ => "bad-op".into(),
+                },
                 [op @ ("chunk" | "concat" | "break" | "strict"), n, lens] => {
                     match (n.parse::<u64>(), parse_nat_list(lens)) {
                         (Ok(n), Some(lens)) if lens.len() <= 64 && lens.iter().all(|l| *l <= 4096) && n <= 1_000_000 => {
@@ -668,6 +699,7 @@ impl Prop for C41 {
         "3/4 spill schedules (0..7 writes of Int32 batches that are fresh arrays or slices sharing buffers, memory limit 0 / \
          within the data size / huge, whole or await-by-await stepped write and finish calls, readers opened before, between and \
          after the writes, single polls / next / drain, occasional send_error and drop, one case in ten an arbitrary op soup), \
+         1/16 black-box concurrent runs (writer task + reader tasks started after 0..100 yields on a multi-threaded runtime), \
          1/4 chunker lines (chunk_stream, chunk_concat_stream, break_stream, StrictBatchSizeStream on 0..12 batch lengths 0..20 \
          incl. empty batches, sizes 1..25, size 0 for chunk/concat); non-trivial = some reader yielded a batch / non-empty input"
             .into()
@@ -675,6 +707,100 @@ impl Prop for C41 {
 }
 
 impl C41 {
+    /// real concurrency: nothing is stepped, the tasks race on a multi-threaded runtime
+    fn exec_conc(&mut self, limit: usize, k: u64, delays: &[u64], fails: &mut Vec<OracleFailure>, line: usize) -> String {
+        self.counter += 1;
+        let path = self.dir.path().join(format!("spill-{}.arrow", self.counter));
+        let (mut sender, receiver) = create_replay_spill(path.clone(), self.schema.clone(), limit);
+        let batches: Vec<RecordBatch> = (0..k)
+            .map(|j| {
+                let v: Vec<i32> = (0..4).map(|x| (j * 100 + x) as i32).collect();
+                RecordBatch::try_new(self.schema.clone(), vec![Arc::new(Int32Array::from(v))]).unwrap()
+            })
+            .collect();
+        let want = batches.clone();
+        let delays: Vec<u64> = delays.to_vec();
+        let outs: Result<Vec<Result<Vec<RecordBatch>, String>>, ()> = self.rt_mt.block_on(async move {
+            let mut readers = vec![];
+            for d in delays {
+                let rx = receiver.clone();
+                readers.push(tokio::spawn(async move {
+                    for _ in 0..d {
+                        tokio::task::yield_now().await;
+                    }
+                    let mut st = rx.read();
+                    let mut got = vec![];
+                    while let Some(b) = st.next().await {
+                        match b {
+                            Ok(b) => got.push(b),
+                            Err(e) => return Err(format!("{e:?}")),
+                        }
+                    }
+                    Ok(got)
+                }));
+            }
+            let writer = tokio::spawn(async move {
+                for b in batches {
+                    sender.write(b).await.unwrap();
+                    tokio::task::yield_now().await;
+                }
+                sender.finish().await.unwrap();
+                sender
+            });
+            let all = async {
+                let sender = writer.await.unwrap();
+                let mut outs = vec![];
+                for r in readers {
+                    outs.push(r.await.unwrap());
+                }
+                drop(sender);
+                outs
+            };
+            tokio::time::timeout(std::time::Duration::from_secs(20), all).await.map_err(|_| ())
+        });
+        let _ = std::fs::remove_file(&path);
+        match outs {
+            Err(()) => {
+                fails.push(OracleFailure {
+                    what: "concurrent spill: writer or a reader did not complete within 20 s".into(),
+                    key: Some("spill_stuck".into()),
+                    line,
+                });
+                "timeout".into()
+            }
+            Ok(outs) => {
+                let mut parts = vec![];
+                for (i, o) in outs.iter().enumerate() {
+                    match o {
+                        Ok(got) => {
+                            if *got != want {
+                                fails.push(OracleFailure {
+                                    what: format!("concurrent spill: reader {i} got {} batches, {} written, or different content", got.len(), want.len()),
+                                    key: Some("spill_wrong_batch".into()),
+                                    line,
+                                });
+                            }
+                            parts.push(format!("r{i}={}", if got.is_empty() { "-".to_string() } else { got.iter().map(show_batch).collect::<Vec<_>>().join(",") }));
+                        }
+                        Err(e) => {
+                            fails.push(OracleFailure {
+                                what: format!("concurrent spill: reader {i} failed: {e}"),
+                                key: Some("spill_spurious_error".into()),
+                                line,
+                            });
+                            parts.push(format!("r{i}=error"));
+                        }
+                    }
+                }
+                if parts.is_empty() {
+                    "-".into()
+                } else {
+                    parts.join(";")
+                }
+            }
+        }
+    }
+
     fn exec_chunk(&self, op: &str, n: u64, lens: &[u64], fails: &mut Vec<OracleFailure>, line: usize) -> String {
         let total: u64 = lens.iter().sum();
         let cap = (total + 4) as usize;
@@ -948,7 +1074,7 @@ fn gen_malformed(rng: &mut Rng) -> Vec<String> {
     let pool = [
         "w 0 4 0 4", "w 1 2 1 1", "wb 2 8 0 8", "wb 3 0 0 0", "ws", "ws", "fb", "fin", "err", "drop", "open", "open", "poll 0", "poll 1",
         "next 0", "drain 0", "drain 1", "poll 7", "next x", "w 1 2 3 4", "w 1 2", "new 0", "new 5", "new 20", "new x", "frob", "chunk 3",
-        "chunk 3 1,x", "strict 0 1,2", "break 0 3", "chunk 0 4,4", "concat 4 -", "strict 3 0,0", "break 2 5",
+        "chunk 3 1,x", "strict 0 1,2", "break 0 3", "chunk 0 4,4", "concat 4 -", "strict 3 0,0", "break 2 5", "conc 0 2 0,1", "conc 5 x 1",
     ];
     let mut out = vec![];
     for _ in 0..rng.range(4, 24) {
